@@ -186,6 +186,19 @@ TrialSet(aid, ok) ==
      ELSE tgt' = tgt /\ own' = -1 /\ phase' = "setfailed" /\ seenNone' = TRUE /\ faultSeen' = TRUE
   /\ UNCHANGED <<np, acc, aid0, nevals, pend, patience, stats, statFault>>
 
+\* A MEMOISING problem may hand out a Jacobian it has computed before for the same parameters without
+\* calling the model again (the Jacobian depends on the parameters only: C10).  The optimizer then goes
+\* from "a Jacobian is due" straight to its trial step; whether the memo is legitimate is decided by the
+\* trace specification (Trace_VPFit!MemoOk).
+TrialSetMemo(aid, ok) ==
+  /\ phase = "jac" /\ pend = AllIdx
+  /\ nfev' = nfev + 1
+  /\ pend' = {}
+  /\ IF ok
+     THEN tgt' = aid /\ own' = own /\ phase' = "eval" /\ UNCHANGED <<seenNone, faultSeen>>
+     ELSE tgt' = tgt /\ own' = -1 /\ phase' = "setfailed" /\ seenNone' = TRUE /\ faultSeen' = TRUE
+  /\ UNCHANGED <<np, acc, aid0, nevals, patience, stats, statFault>>
+
 \* NAMED DEVIATION "update without evaluation" inside a fit (see CSetSkip): the optimizer is handed the
 \* cached residuals and decides on them
 TrialSetSkip(aid, dec) ==
